@@ -129,11 +129,14 @@ class ImmuneSystem:
             )
 
         # Check memory for known threats
-        recalled = self.memory.recall_by_hashes(
-            agent_id=agent_id,
-            vocabulary_hash=peptide.vocabulary_hash,
-            structure_hash=peptide.structure_hash,
-        )
+        recalled = None
+        # Memory is a second signal only: it needs a current baseline violation
+        if not tcell.is_anergic and tcell.profile.check(peptide):
+            recalled = self.memory.recall_by_hashes(
+                agent_id=agent_id,
+                vocabulary_hash=peptide.vocabulary_hash,
+                structure_hash=peptide.structure_hash,
+            )
 
         if recalled is not None:
             # Known threat - fast response
